@@ -323,6 +323,8 @@ func checkExcerptIndexPairing(c *Ctx) {
 		ins  ssa.Instruction
 		kind string
 		via  string // "" for the map operation itself, else the helper through which the excerpts change
+		// obligations the helper already met on all its paths (only the others move to its callers)
+		idxDone, fileDone bool
 	}
 	var sites []mutSite
 	for _, fn := range w.ModFns {
@@ -349,7 +351,7 @@ func checkExcerptIndexPairing(c *Ctx) {
 					}
 				}
 				if kind != "" {
-					sites = append(sites, mutSite{fn, ins, kind, ""})
+					sites = append(sites, mutSite{fn: fn, ins: ins, kind: kind})
 				}
 			}
 		}
@@ -371,7 +373,7 @@ func checkExcerptIndexPairing(c *Ctx) {
 					callee = callee.Origin()
 				}
 				if callee == ho {
-					out = append(out, mutSite{g, cl.Instr, "", ""})
+					out = append(out, mutSite{fn: g, ins: cl.Instr})
 				}
 			}
 		}
@@ -407,14 +409,22 @@ func checkExcerptIndexPairing(c *Ctx) {
 				need, what = isIndexClear, "Index.Clear"
 			}
 			// within one iteration: reach a normal exit or the loop back edge without the index op
+			pathSearchSkipKnownErrorReturns = true
 			bad, p, _ := pathSearch(fn, ins, nil, func(i ssa.Instruction) bool { return isNormalExit(i) }, need, false)
 			bad2, p2, _ := pathSearch(fn, ins, nil, func(i ssa.Instruction) bool { return isNormalExit(i) }, isWrite, false)
+			pathSearchSkipKnownErrorReturns = false
+			if s.idxDone {
+				bad = false
+			}
+			if s.fileDone {
+				bad2 = false
+			}
 			// a helper that only changes the excerpts (under the lock) and leaves the rest to its callers:
 			// the obligation moves to every call of it
 			if (bad || bad2) && round < 2 && root == fn && fn.Object() != nil && !fn.Object().Exported() {
 				if cs := callersOf(fn); len(cs) > 0 {
 					for _, cs1 := range cs {
-						next = append(next, mutSite{cs1.fn, cs1.ins, kind, fn.Name()})
+						next = append(next, mutSite{fn: cs1.fn, ins: cs1.ins, kind: kind, via: fn.Name(), idxDone: !bad, fileDone: !bad2})
 					}
 					c.Info("R11.1", key, pos, fmt.Sprintf("the index and cache-file obligations are left to the %d caller(s) of this helper", len(cs)))
 					continue
